@@ -8,6 +8,7 @@ CONSTANTS
   Latchings = {TRUE, FALSE}
   Compats = {"Standard", "LegacySip"}
   Offerers = {"A", "B"}
+  Scheds = {"plain", "slowSetRemote"}
   Deviations = {}
 INVARIANTS TypeOK RolesComplementary SameSrtpKeys NeverFailed
 PROPERTIES ConnectsAndDelivers
